@@ -12,16 +12,17 @@ from dst.storage.simfile import Budget, IoSeam, ReadBudgetExceeded
 
 ID = "C09"
 LEVEL = "exploration"
-RUNS = {"quick": 6000, "thorough": 400000}
+RUNS = {"quick": 30000, "thorough": 400000}
 CHUNK = {"quick": 50, "thorough": 200}
 PROBES = ["unaligned_read_then_observe", "read_at_eof", "read_past_eof", "read0", "read_all", "seek_set", "seek_cur",
           "seek_end", "len_mod4_nonzero", "len_lt_16", "detect_marker_and_size", "detect_size_only",
-          "detect_marker_only", "detect_decoy_marker", "negative_rejected", "nonce_zero_byte", "head_unaligned"]
+          "detect_marker_only", "detect_decoy_marker", "negative_rejected", "nonce_zero_byte", "head_unaligned", "first_op_without_seek", "read_without_argument",
+          "constructed_with_default_offset"]
 RULE = ("seeded plans: (a) direct construction over arbitrary plaintext (len 0..4100, every residue mod 4, many <16), "
         "nonce incl. zero bytes, stub 0-900 bytes, 1-12 histories of 1-24 seek/read/tell ops; (b) detection via "
         "from_file on stub|nonce|size|rolling-xor(PE image) with marker+size / size only / marker only variants, decoy "
         "markers, chunk knob B; (c) negatives (random bytes, plain PE, raw config block). Systematic: all ordered pairs "
-        "of 22 op classes on plaintext lengths 0..13. non-trivial = history has an unaligned read followed by another "
+        "of 23 op classes on plaintext lengths 0..13. non-trivial = history has an unaligned read followed by another "
         "observation, a read at/after EOF, or all three seek kinds; or detection run; distinct = distinct digest")
 ASSUMPTIONS = [
     "no seeks to negative logical positions; the encoded region extends to EOF (no trailing bytes)",
@@ -34,9 +35,9 @@ REAL = ["xordecode.XorEncodedFile (read/seek/tell/read_nonce/from_file)", "xorde
         "utils.iter_find_needle", "pe.find_mz_offset", "utils.xor"]
 STUB = ["storage device (SimFile)", "io.DEFAULT_BUFFER_SIZE knob", "independent rolling-XOR encoder", "byte-slice file model"]
 
-_OPS = ([["read", n] for n in (0, 1, 2, 3, 4, 5, 7, 8, 9, -1)]
+_OPS = ([["read", n] for n in (0, 1, 2, 3, 4, 5, 7, 8, 9, -1, "noarg")]
         + [["seek", o, 0] for o in (0, 1, 3, 4, 6)] + [["seek", o, 1] for o in (-1, 0, 1, 2)]
-        + [["seek", o, 2] for o in (0, -1, -3)])  # 22 op classes
+        + [["seek", o, 2] for o in (0, -1, -3)])  # 23 op classes
 
 
 def _stub(rng, n, marker, decoys):
@@ -60,8 +61,10 @@ def _gen_history(rng, plen, maxops=24):
     for _ in range(rng.randint(1, maxops)):
         r = rng.random()
         if r < 0.5:
-            n = rng.choice([0, 1, 1, 2, 3, 3, 4, 5, 7, 8, 9, 16, 17, plen, plen + 5, -1, rng.randint(0, max(1, plen))])
+            n = rng.choice([0, 1, 1, 2, 3, 3, 4, 5, 7, 8, 9, 16, 17, plen, plen + 5, -1, "noarg", rng.randint(0, max(1, plen))])
             ops.append(["read", n])
+            if n == "noarg":
+                n = -1
             if pos < plen:
                 pos = plen if n < 0 else min(pos + n, plen)
         elif r < 0.85:
@@ -86,6 +89,11 @@ def generate(rng, tier, index):
         plain = builder.prng_bytes(rng.getrandbits(30), plen)
         stub = _stub(rng, rng.choice([0, 0, 1, 5, 100, 900, rng.randint(0, 900)]), rng.random() < 0.5, 0)
         return {"mode": "direct", "plain": hx(plain), "nonce": hx(nonce), "stub": hx(stub), "B": B,
+                # how the view is obtained and used: the constructor (default nonce_offset when there is no stub) and
+                # whether the caller seeks before the first operation or relies on the initial position 0
+                "initial_seek": rng.random() < 0.5, "default_offset_arg": rng.random() < 0.5,
+                # the size field is not consulted by the constructor: any value is legal there
+                "size_delta": rng.choice([0, 0, 1, -1, 0x01000000, 0x7F000000, rng.getrandbits(32)]),
                 "histories": [_gen_history(rng, plen) for _ in range(rng.randint(1, 12))]}
     if r < 0.85:
         variant = rng.choice(["both", "both", "size", "marker"])
@@ -99,7 +107,7 @@ def generate(rng, tier, index):
         stub = _stub(rng, n, variant in ("both", "marker"), decoys)
         plen_guess = 2200
         return {"mode": "detect", "variant": variant, "pe": pe, "nonce": hx(nonce), "stub": hx(stub), "B": B,
-                "size_delta": rng.choice([1, -1, 4, 1000, -8]),
+                "size_delta": rng.choice([1, -1, 4, 1000, -8, 0x01000000, 0x5A000000, rng.getrandbits(32) | 1]),
                 "histories": [_gen_history(rng, plen_guess, maxops=10) for _ in range(rng.randint(0, 3))]}
     kind = rng.choice(["random", "plain_pe", "raw_block", "text", "empty", "short"])
     return {"mode": "negative", "kind": kind, "seed": rng.getrandbits(30), "size": rng.choice([0, 3, 7, 8, 12, 100, 2000, 5000]),
@@ -129,23 +137,35 @@ def _posclass(pos, plen):
 
 
 def _nclass(n):
+    if n == "noarg":
+        return "n=-1"
     return "n=-1" if n == -1 else "n=0" if n == 0 else "n%4==0" if n % 4 == 0 else "n%4!=0"
 
 
-def run_history(res: Result, xf, plain: bytes, ops, tag, narrow=None):
+def run_history(res: Result, xf, plain: bytes, ops, tag, narrow=None, initial_seek=True):
     """Drive one history against the byte-slice model. Returns False after the first divergence."""
     plen = len(plain)
     pos = 0
-    xf.seek(0)
+    if initial_seek:
+        xf.seek(0)
+    else:
+        res.probes["first_op_without_seek"] += 1
     seen_unaligned = False
     kinds = set()
     for k, op in enumerate(ops):
         try:
             if op[0] == "read":
                 n = op[1]
-                want = plain[pos:] if n == -1 else plain[pos:pos + n]
-                pc = _posclass(pos, plen)
-                got = xf.read(n)
+                if n == "noarg":
+                    n = -1
+                    res.probes["read_without_argument"] += 1
+                    want = plain[pos:]
+                    pc = _posclass(pos, plen)
+                    got = xf.read()
+                else:
+                    want = plain[pos:] if n == -1 else plain[pos:pos + n]
+                    pc = _posclass(pos, plen)
+                    got = xf.read(n)
                 t = xf.tell()
                 res.log.log("read", tag, k, n, got, t)
                 if seen_unaligned:
@@ -238,7 +258,8 @@ def execute(plan: dict) -> Result:
             else:
                 plain, nonce, stub = unhx(plan["plain"]), unhx(plan["nonce"]), unhx(plan["stub"])
                 hist = plan["histories"]
-            raw, no = builder.xorencode(plain, nonce, stub)
+            delta = plan.get("size_delta", 0) if mode == "direct" else 0
+            raw, no = builder.xorencode(plain, nonce, stub, size_consistent=not delta, size_delta=delta)
             if len(plain) % 4:
                 res.probes["len_mod4_nonzero"] += 1
             if len(plain) < 16:
@@ -248,14 +269,20 @@ def execute(plan: dict) -> Result:
             res.cases = len(hist)
             for hi, ops in enumerate(hist):
                 fh = seam.file(raw)
-                xf = XorEncodedFile(fh, nonce_offset=no)
+                if no == 0 and plan.get("default_offset_arg"):
+                    xf = XorEncodedFile(fh)
+                    res.probes["constructed_with_default_offset"] += 1
+                else:
+                    xf = XorEncodedFile(fh, nonce_offset=no)
 
                 def narrow(ops_prefix, plain=plain, nonce=nonce, stub=stub):
                     return {"mode": "direct", "plain": hx(plain), "nonce": hx(nonce), "stub": hx(stub),
+                            "initial_seek": plan.get("initial_seek", True), "default_offset_arg": plan.get("default_offset_arg", False),
+                            "size_delta": delta,
                             "B": plan.get("B", 8192), "histories": [ops_prefix], "property": ID,
                             "format": plan.get("format"), "run_seed": plan.get("run_seed"),
                             "run_index": plan.get("run_index"), "population": plan.get("population")}
-                run_history(res, xf, plain, ops, hi, narrow)
+                run_history(res, xf, plain, ops, hi, narrow, initial_seek=plan.get("initial_seek", True) if mode == "direct" else hi % 2 == 0)
         elif mode == "detect":
             plain = _pe_plain(plan["pe"])
             nonce, stub = unhx(plan["nonce"]), unhx(plan["stub"])
@@ -336,7 +363,7 @@ def _valid(ops, plen):
     pos = 0
     for op in ops:
         if op[0] == "read":
-            n = op[1]
+            n = -1 if op[1] == "noarg" else op[1]
             pos = max(pos, min(plen, pos + n) if n >= 0 else plen) if pos < plen else pos
         elif op[0] == "seek":
             pos = op[1] if op[2] == 0 else pos + op[1] if op[2] == 1 else plen + op[1]
